@@ -1246,6 +1246,37 @@ func c15Overlap(r *rand.Rand) c15In {
 	return in
 }
 
+// Directed overlap: a provider Q is known; k bidders connect and their own message (Q's record) is
+// still in flight when provider P connects; P is then released first. Every one of those bidders
+// is in the view from its connect event on, so P's fan-out must reach it, and P must be told Q.
+func c15OverlapDirected(r *rand.Rand) c15In {
+	pool := c15NewPool(r)
+	in := c15In{Probes: pool.probes}
+	var lk []c15Lk
+	for _, q := range pool.peers {
+		lk = append(lk, c15Lk{q, c15Underlay(q)})
+	}
+	q := pool.peers[1]
+	in.Acts = append(in.Acts, c15Act{K: "start", C: 0, P: &q, Lk: lk})
+	nb := 1 + r.Intn(3)
+	for i := 0; i < nb; i++ {
+		b := pool.peers[3+i]
+		in.Acts = append(in.Acts, c15Act{K: "start", C: 1 + i, P: &b, Lk: lk})
+	}
+	p := pool.peers[0]
+	pc := 1 + nb
+	in.Acts = append(in.Acts, c15Act{K: "start", C: pc, P: &p, Lk: lk})
+	for i := 0; i <= nb; i++ { // P first: its message, then its whole fan-out
+		in.Acts = append(in.Acts, c15Act{K: "release", C: pc})
+	}
+	for round := 0; round < 3; round++ {
+		for c := 0; c <= pc; c++ {
+			in.Acts = append(in.Acts, c15Act{K: "release", C: c})
+		}
+	}
+	return in
+}
+
 func c15Exhaustive(depth int, f func(c15In)) {
 	mk := func(b byte, t int) c15Peer {
 		var a common.Address
@@ -1331,6 +1362,9 @@ func TestVerifC15(t *testing.T) {
 	}
 	for i := 0; i < e.N/8; i++ {
 		in := c15Overlap(e.rng)
+		if i < 6 {
+			in = c15OverlapDirected(e.rng)
+		}
 		emitAny("overlap", in, c15RunAny(in, e.Slow))
 	}
 	nc, runMs := 3, 150
